@@ -37,7 +37,10 @@ OPEN_STATEMENTS = [
     'qubit positions, angle, control), and that a gate is exp(-i angle generator) is the C14 gate correspondence',
     'basis changes (bogoliubov_transform inside SPLIT_OPERATOR / LOW_RANK) are opaque markers in the Model; the operator identity '
     'U n_i U^-1 = orbital number operator is the C14 conjugation oracle, and the unitary of whole circuits is a 1e-8 float comparison',
-    'controlled_structure is about the Model lists; identity on control 0 / phase of the constant on real circuits: oracle',
+    'controlled_structure / controlled_phase are about the Model lists and leaf times (total phase exp(-i t constant)); identity on '
+    'control 0 and the phase on real circuits: oracle',
+    'suzuki_power_sums gives all power sums of the leaf times in closed form (hence the multiset) and suzuki_top_power_sum_vanishes '
+    'the order-raising cancellation over the reals; the analytic step from these to the error bound remains open',
 ]
 ASSUMPTIONS = [
     'cirq.Circuit.unitary, scipy.linalg.expm, numpy are trusted numerical kernels (abs tol 1e-8 on <= 5 qubits)',
@@ -752,6 +755,126 @@ def hardening_stream(ctx, lad):
                 E, _, R = expected_unitary(ctx, ref, 0.5, 2, order, False)
                 compare(st, case, 'S: after the in-place `ham *= 2` the circuit follows the new Hamiltonian (%s)' % alg,
                         U3, E, ref.const, 0.5, True, R)
+    # ---- (S) repeated calls on the same step / algorithm objects, side effects on the qubit lists
+    from openfermion.circuits.trotter.algorithms import linear_swap_network as lsn_mod
+    from openfermion.circuits.trotter.algorithms import split_operator as so_mod
+    from openfermion.circuits.trotter.algorithms import low_rank as lr_mod
+    from openfermion.circuits import trotter as trotter_mod
+    step_classes = [
+        ('LSN', lsn_mod.AsymmetricLinearSwapNetworkTrotterStep, False), ('LSN', lsn_mod.SymmetricLinearSwapNetworkTrotterStep, False),
+        ('LSN', lsn_mod.ControlledAsymmetricLinearSwapNetworkTrotterStep, True),
+        ('LSN', lsn_mod.ControlledSymmetricLinearSwapNetworkTrotterStep, True),
+        ('SO', so_mod.AsymmetricSplitOperatorTrotterStep, False), ('SO', so_mod.SymmetricSplitOperatorTrotterStep, False),
+        ('SO', so_mod.ControlledAsymmetricSplitOperatorTrotterStep, True),
+        ('SO', so_mod.ControlledSymmetricSplitOperatorTrotterStep, True),
+        ('LR', lr_mod.AsymmetricLowRankTrotterStep, False), ('LR', lr_mod.ControlledAsymmetricLowRankTrotterStep, True)]
+    for alg, cls, ctl in step_classes:
+        n = 3 if alg != 'LR' else 4
+        ham = patterned_dch(of, rng, n, 'mixed') if alg != 'LR' else eightfold(of, rng, 2)
+        qubits = [cirq.LineQubit(3 * i) for i in range(n)]
+        qsnap = list(qubits)
+        control = cirq.LineQubit(77) if ctl else None
+        case = {'family': 'S', 'step_class': cls.__name__, 'hamiltonian': ham_json(alg, ham)}
+        st.case(case)
+        st.count('S:step-object')
+        try:
+            ta, tb = 0.5, -0.25
+
+            def ops_of(stp, t):
+                return list(cirq.flatten_op_tree([stp.prepare(qubits, control), stp.trotter_step(qubits, t, control),
+                                                  stp.finish(stp.step_qubit_permutation(qubits, control)[0], 1,
+                                                             control, False)]))
+            stp = cls(ham)
+            first_a = ops_of(stp, ta)
+            first_b = ops_of(stp, tb)
+            again_a = ops_of(stp, ta)
+            fresh_a = ops_of(cls(ham), ta)
+            fresh_b = ops_of(cls(ham), tb)
+            order_q = ([control] if ctl else []) + qubits
+            ua, ub = circuit_unitary(cirq, fresh_a, order_q), circuit_unitary(cirq, fresh_b, order_q)
+            st.float_comparisons += 3
+            if not maxdiff(circuit_unitary(cirq, again_a, order_q), ua) <= 1e-12:
+                st.violate('S: repeated trotter_step on the same step object differs from the first call', case, {})
+            if not maxdiff(circuit_unitary(cirq, first_a, order_q), ua) <= 1e-12 or \
+                    not maxdiff(circuit_unitary(cirq, first_b, order_q), ub) <= 1e-12:
+                st.violate('S: trotter_step with a second time on the same step object differs from a fresh step object',
+                           case, {})
+            if qubits != qsnap:
+                st.violate('S: prepare / trotter_step / step_qubit_permutation / finish modify the caller\'s qubit list',
+                           case, {'now': [str(q) for q in qubits]})
+            for nst in (1, 2):
+                for om in (True, False):
+                    fl = list(qsnap)
+                    list(cirq.flatten_op_tree(stp.finish(fl, nst, control, om)))
+                    if fl != qsnap:
+                        st.violate('S: finish modifies the qubit list it is given', case,
+                                   {'n_steps': nst, 'omit_final_swaps': om})
+            pl = list(qsnap)
+            list(cirq.flatten_op_tree(stp.prepare(pl, control)))
+            list(cirq.flatten_op_tree(stp.trotter_step(pl, ta, control)))
+            if pl != qsnap:
+                st.violate('S: prepare / trotter_step modify the qubit list they are given', case, {})
+            perm_q, perm_c = stp.step_qubit_permutation(qubits, control)
+            if perm_q is qubits and list(perm_q) != qsnap:
+                st.violate('S: step_qubit_permutation reverses the caller\'s list in place', case, {})
+        except Exception as e:  # noqa: BLE001
+            st.violate('S: repeated step calls raised %s' % type(e).__name__, case, {'exception': repr(e)[:200]})
+    # the module-level algorithm singletons, used for hamiltonian A, then B, then A again; qubit list untouched
+    for alg in ('LSN', 'SO', 'LR'):
+        n = 3 if alg != 'LR' else 4
+        hA = patterned_dch(of, rng, n, 'mixed') if alg != 'LR' else eightfold(of, rng, 2)
+        hB = patterned_dch(of, rng, n, 'imaginary') if alg != 'LR' else eightfold(of, rng, 2)
+        case = {'family': 'S', 'algorithm_singleton': alg}
+        st.case(case)
+        st.count('S:algorithm-object')
+        order = 0 if alg == 'LR' else 1
+        qubits = list(cirq.LineQubit.range(n))
+        qsnap = list(qubits)
+
+        def sim(h, omit):
+            return circuit_unitary(cirq, of.simulate_trotter(qubits, h, 0.5, n_steps=3, order=order,
+                                                             algorithm=algorithm(of, alg), omit_final_swaps=omit), qsnap)
+        try:
+            u1 = sim(hA, False)
+            u1o = sim(hA, True)
+            _ = sim(hB, True)
+            u3 = sim(hA, False)
+            u3o = sim(hA, True)
+            st.float_comparisons += 2
+            if not (maxdiff(u3, u1) <= 1e-12 and maxdiff(u3o, u1o) <= 1e-12):
+                st.violate('S: simulate_trotter with a shared algorithm object depends on earlier calls', case, {})
+            if qubits != qsnap:
+                st.violate('S: simulate_trotter (finish / omit_final_swaps) modifies the caller\'s qubit list', case, {})
+        except Exception as e:  # noqa: BLE001
+            st.violate('S: repeated simulate_trotter raised %s' % type(e).__name__, case, {'exception': repr(e)[:200]})
+    # ---- (T) integer and other dtypes of InteractionOperator tensors (LOW_RANK)
+    hI = eightfold(of, rng, 2)
+    one_i, two_i = np.round(hI.one_body_tensor * 8), np.round(hI.two_body_tensor * 16)
+    q4 = cirq.LineQubit.range(4)
+
+    def run_lr(one, two, const):
+        h = of.InteractionOperator(const, one, two)
+        return circuit_unitary(cirq, of.simulate_trotter(q4, h, 0.03125, n_steps=2, order=0,
+                                                         algorithm=trotter_mod.LOW_RANK), list(q4))
+    ok, canon_lr = safe(st, 'simulate_trotter LOW_RANK (float64 tensors)', {'family': 'T'},
+                        lambda: run_lr(one_i.astype(np.float64), two_i.astype(np.float64), 1.0))
+    if ok:
+        for tn, dt, tol in (('int64', np.int64, TOL), ('int32', np.int32, TOL), ('float32', np.float32, 1e-5),
+                            ('complex128', np.complex128, TOL), ('complex64', np.complex64, 1e-5)):
+            case = {'family': 'T', 'algorithm': 'LR', 'variant': 'InteractionOperator tensors ' + tn}
+            st.case(case)
+            st.count('T:interaction-tensor-dtype')
+            ok, U = safe(st, 'T: simulate_trotter LOW_RANK (%s tensors)' % tn, case,
+                         lambda: run_lr(one_i.astype(dt), two_i.astype(dt), 1))
+            if ok and not dist(U, canon_lr) <= tol:
+                st.violate('T: simulate_trotter LOW_RANK with %s tensors differs from float64 tensors' % tn, case,
+                           {'distance_up_to_global_phase': float(phase_diff(U, canon_lr))})
+        case = {'family': 'T', 'algorithm': 'LR', 'variant': 'Fortran-ordered tensors'}
+        st.case(case)
+        ok, U = safe(st, 'T: simulate_trotter LOW_RANK (Fortran tensors)', case, lambda: run_lr(
+            np.asfortranarray(one_i.astype(np.float64)), np.asfortranarray(two_i.astype(np.float64)), 1.0))
+        if ok and not dist(U, canon_lr) <= TOL:
+            st.violate('T: simulate_trotter LOW_RANK with Fortran-ordered tensors differs', case, {})
     # ---- (T) types
     n = 3
     q3 = cirq.LineQubit.range(n)
